@@ -115,6 +115,17 @@ class State:
         return z3.And(*self.pc) if self.pc else z3.BoolVal(True)
 
 
+def _norm(entries):
+    """contract clauses: (label, formula) or (label, formula, extra) where extra is 'callers'
+    (a precondition clause only callers must establish; not assumed when verifying the body)
+    or a list of hypotheses (instances of quantified preconditions) for that clause only"""
+    for e in entries:
+        if len(e) == 2:
+            yield e[0], e[1], None
+        else:
+            yield e[0], e[1], e[2]
+
+
 def _same(a, b):
     return a is b or (a is not None and b is not None and a.eq(b))
 
@@ -194,6 +205,12 @@ class Contract:
 
     def witness(self, c):    # -> {name: term} values of interest for replay
         return {}
+
+    def accessible(self, c):  # -> None (no memory-safety obligations) or {'read': pred, 'write': pred} with pred(st, addr, nbytes) -> Bool
+        return None
+
+    def allocates(self, c):  # -> [(addr, nbytes)] regions that are freshly allocated on return (c.result, c.new)
+        return []
 
 
 class Frame:
@@ -278,6 +295,11 @@ class Exec:
         self.pruned = 0
         self.declared_regions = []
         self.collecting_regions = False
+        self.fresh_regions = []        # (addr, nbytes) allocated during this execution
+        self.literals = {}             # string literals seen: key -> (address, bytes)
+        self.literal_hyps = []
+        self.access_regions = None     # {'read': [(addr, n)], 'write': [...]} when the contract declares them
+        self.cur_line = None
 
     # -- naming ------------------------------------------------------------
     def fresh(self, base, sort):
@@ -383,6 +405,7 @@ class Exec:
         if loc.kind == 'mem':
             if t.kind in ('record', 'array'):
                 raise NotSupported("rvalue of aggregate")
+            self.check_access(st, loc.a, t.size, 'read')
             v = self.load_raw(st, loc.a, t.size)
             if t.kind == 'float' and t.size in (4, 8):
                 return z3.fpBVToFP(v, sort_of(t))
@@ -403,6 +426,7 @@ class Exec:
         elif loc.kind == 'mem':
             if t.kind == 'float' and t.size in (4, 8):
                 val = z3.fpToIEEEBV(val)
+            self.check_access(st, loc.a, t.size, 'write')
             self.store_raw(st, loc.a, val, t.size)
         elif loc.kind == 'field':
             key = self.heap_key(loc.b, loc.c, t.bits)
@@ -410,6 +434,35 @@ class Exec:
             st.fh[key] = z3.Store(h, loc.a, val)
         else:
             raise NotSupported("store " + loc.kind)
+
+    def check_access(self, st, addr, nbytes, what):
+        """memory-safety obligation (only for contracts that declare what is accessible): every byte
+        accessed satisfies the contract's ghost predicate readable()/writable(), whose extent the
+        precondition states, or lies in this frame's locals, fresh allocations or string literals"""
+        regs = self.access_regions
+        if regs is None or nbytes == 0:
+            return
+        pred = regs[what]
+        n = BV(nbytes, 64)
+        oks = [pred(st, addr, nbytes)]
+        oks += [z3.And(z3.UGE(addr, sa), z3.ULE(addr + n, sa + BV(ssize, 64))) for sa, ssize in self.stack_syms]
+        oks += [z3.And(z3.UGE(addr, fa), z3.ULE(addr + n, fa + fn_)) for fa, fn_ in self.fresh_regions]
+        oks += [z3.And(z3.UGE(addr, la), z3.ULE(addr + n, la + BV(len(lv) + 1, 64)))
+                for la, lv in self.literals.values() if lv is not None]
+        self.ob('memory', self.cur_line, '%s-of-%d-bytes-is-inside-accessible-memory' % (what, nbytes), st,
+                z3.Or(*oks), witness={'access_addr': addr})
+
+    def alloc(self, st, nbytes, tag='alloc', region=None):
+        """a freshly allocated region: mapped, and disjoint from every region the precondition
+        names, from earlier allocations and from this frame's stack locals"""
+        n = nbytes if z3.is_bv(nbytes) else BV(nbytes, 64)
+        p = region if region is not None else self.fresh(tag, B64)
+        st.assume(z3.And(z3.UGE(p, BV(USER_LO, 64)), z3.ULE(n, BV(USER_HI, 64)), z3.ULE(p + n, BV(USER_HI, 64)),
+                         z3.ULE(p, BV(USER_HI, 64))))
+        for (r, n2) in self.declared_regions + self.fresh_regions:
+            st.assume(z3.Or(z3.UGE(p, r + n2), z3.ULE(p + n, r)))
+        self.fresh_regions.append((p, n))
+        return p
 
     def global_addr(self, name):
         if name not in self._globals_addr:
@@ -453,13 +506,18 @@ class Exec:
             hy.append(z3.ULE(a, BV(STACK_HI, 64)))
             end = a + BV((size + 15) // 16 * 16, 64)
             hy.append(z3.ULE(end, BV(STACK_HI, 64)))
-            for (r, n) in self.declared_regions:
+            for (r, n) in self.declared_regions + self.fresh_regions:
                 hy.append(z3.Or(z3.UGE(a, r + n), z3.ULE(end, r)))
             prev_end = end
-        if len(self._glob_syms) > 1:
-            hy.append(z3.Distinct(*self._glob_syms))
+        hy += self.literal_hyps
+        # globals / literals / exception-class constants: distinct objects 4 KiB apart (fixed order),
+        # disjoint from this frame's stack locals
+        gprev = BV(USER_LO, 64)
         for g in self._glob_syms:
-            hy.append(z3.And(z3.UGE(g, BV(USER_LO, 64)), z3.ULT(g, BV(USER_HI, 64))))
+            hy.append(z3.And(z3.UGE(g, gprev), z3.ULE(g, BV(USER_HI, 64))))
+            gprev = g + BV(4096, 64)
+            for a, size in self.stack_syms:
+                hy.append(z3.Or(z3.UGE(g, a + BV((size + 15) // 16 * 16, 64)), z3.ULE(g + BV(4096, 64), a)))
         return hy
 
     def run(self):
@@ -493,8 +551,12 @@ class Exec:
         c0 = Ctx(self, args, self.st0)
         self.c0 = c0
         self.collecting_regions = True
-        for label, p in self.contract.pre(c0):
-            st.assume(p)
+        self.callers_pre = []
+        for label, p, extra in _norm(self.contract.pre(c0)):
+            if extra != 'callers':
+                st.assume(p)
+            else:
+                self.callers_pre.append(p)     # used only to discharge callee preconditions (pass-through)
         for label, p in self.contract.scope(c0):
             st.assume(p)
         self.collecting_regions = False
@@ -505,14 +567,17 @@ class Exec:
         for k, g in self.st0.ghost.items():
             st.ghost.setdefault(k, g)
         self.base_witness = dict(self.contract.witness(c0))
+        acc = self.contract.accessible(c0)
+        if acc is not None:
+            self.access_regions = acc          # {'read': pred, 'write': pred}
         end = self.exec_stmt(body, st)
         if end is not None:
             self.returns.append((end, None, line_of(self.fn['range']['end']) if False else 'end'))
         # post-conditions per return
         for (rst, rval, rline) in self.returns:
             c = Ctx(self, args, self.st0, rst, rval)
-            for label, g in self.contract.post(c):
-                self.ob('ensures', rline, label, rst, g)
+            for label, g, extra in _norm(self.contract.post(c)):
+                self.ob('ensures', rline, label, rst, g, hyps_extra=extra or ())
             self.check_frame(c, rst, rline)
         self.global_hyps[:] = self.finish_hyps()
         for o in self.obs:
@@ -531,6 +596,8 @@ class Exec:
             conds = [z3.Not(in_range(a, lo, n if z3.is_bv(n) else BV(n, 64))) for lo, n in fr.raw]
             for sa, ssize in self.stack_syms:            # stack locals of this frame are dead on return
                 conds.append(z3.Not(in_range(a, sa, BV((ssize + 15) // 16 * 16, 64))))
+            for fa, fn_ in self.fresh_regions:           # memory allocated by this call did not exist before
+                conds.append(z3.Not(in_range(a, fa, fn_)))
             self.ob('frame', rline, 'raw-bytes-outside-assigns-unchanged', rst,
                     z3.Implies(z3.And(*conds), z3.Select(rst.raw, a) == z3.Select(self.raw0, a)),
                     witness={'frame_a': a})
@@ -549,6 +616,7 @@ class Exec:
                     continue
                 a = z3.BitVec('frame_p', 64)
                 notstack = [z3.Not(in_range(a, sa, BV((ssize + 15) // 16 * 16, 64))) for sa, ssize in self.stack_syms]
+                notstack += [z3.Not(in_range(a, fa, fn_)) for fa, fn_ in self.fresh_regions]
                 self.ob('frame', rline, 'field-heap-unchanged:' + key, rst,
                         z3.Implies(z3.And(*notstack) if notstack else z3.BoolVal(True),
                                    z3.Select(h, a) == z3.Select(h0, a)),
@@ -763,7 +831,10 @@ class Exec:
         elif k == 'UnaryOperator' and node.get('opcode') in ('++', '--'):
             self._lhs_target(node['inner'][0], acc)
         elif k == 'CallExpr':
-            acc['calls'] = True
+            nm, _ind = self.callee_name(node)
+            con = self.reg.contracts.get(nm) if nm else None
+            if not (nm in getattr(self.reg, 'pure_models', ()) or (con is not None and con.pure)):
+                acc['calls'] = True
         elif k == 'VarDecl':
             acc['vars'].add(node['id'])
         for c in node.get('inner', []) or []:
@@ -826,8 +897,8 @@ class Exec:
             return merge_states(exits)
         # invariant mode
         c_entry = Ctx(self, self.args, self.st0, st)
-        for label, g in spec.invariant(c_entry, st):
-            self.ob('loop-entry', line, 'loop%d:%s' % (ordinal, label), st, g)
+        for label, g, extra in _norm(spec.invariant(c_entry, st)):
+            self.ob('loop-entry', line, 'loop%d:%s' % (ordinal, label), st, g, hyps_extra=extra or ())
         acc = {'vars': set(), 'mem': False, 'calls': False}
         for part in (cond, inc, body):
             if part:
@@ -846,7 +917,7 @@ class Exec:
                 h.ghost[gk] = self.fresh('loop%d_g' % ordinal, h.ghost[gk].sort())
         c_h = Ctx(self, self.args, self.st0, h)
         c_h.entry = st
-        for label, g in spec.invariant(c_h, h):
+        for label, g, extra in _norm(spec.invariant(c_h, h)):
             h.assume(g)
         exit_st = h.copy()
         if cond and not is_do:
@@ -874,8 +945,8 @@ class Exec:
                 cur.assume(cv)
             c_end = Ctx(self, self.args, self.st0, cur)
             c_end.entry = st
-            for label, g in spec.invariant(c_end, cur):
-                self.ob('loop-preserved', line, 'loop%d:%s' % (ordinal, label), cur, g)
+            for label, g, extra in _norm(spec.invariant(c_end, cur)):
+                self.ob('loop-preserved', line, 'loop%d:%s' % (ordinal, label), cur, g, hyps_extra=extra or ())
         return merge_states(exits)
 
     def decl_name(self, did):
@@ -1005,6 +1076,9 @@ class Exec:
     # -- expressions ---------------------------------------------------------
     def ev(self, n, st, want=True):
         k = n['kind']
+        ln = line_of(n)
+        if ln is not None:
+            self.cur_line = ln
         m = getattr(self, 'ev_' + k, None)
         if m is None:
             raise NotSupported("expression kind %s (line %s)" % (k, line_of(n)))
@@ -1032,9 +1106,20 @@ class Exec:
         return self.global_addr('str:__func__')
 
     def ev_StringLiteral(self, n, st):
-        # address of an anonymous constant; contents modelled only on request
-        key = 'str:' + n.get('value', '')[:60]
-        return self.global_addr(key)
+        # address of an anonymous constant array holding the literal's bytes and a NUL
+        import ast as _ast
+        key = 'str:' + n.get('value', '')[:80]
+        a = self.global_addr(key)
+        if key not in self.literals:
+            try:
+                val = _ast.literal_eval('b' + n['value'])
+            except Exception:
+                val = None
+            self.literals[key] = (a, val)
+            if val is not None and len(val) <= 64:
+                for i, ch in enumerate(val + b'\0'):
+                    self.literal_hyps.append(z3.Select(self.raw0, a + BV(i, 64)) == BV(ch, 8))
+        return a
 
     def ev_DeclRefExpr(self, n, st):
         rd = n['referencedDecl']
@@ -1063,7 +1148,29 @@ class Exec:
         return BV(val, self.tu.ctype_of(n).bits)
 
     def ev_OffsetOfExpr(self, n, st):
-        raise NotSupported("offsetof")
+        # clang's JSON omits the designator: recover "offsetof(T, member)" from the real source text
+        import re
+        b = n['range']['begin']
+        b = b.get('expansionLoc', b)
+        fn = b.get('_file') or self.tu.path
+        if fn not in self.tu._files:
+            with open(fn, 'rb') as fh:
+                self.tu._files[fn] = fh.read()
+        txt = self.tu._files[fn][b['offset']:b['offset'] + 200].decode('latin-1')
+        m = re.match(r'\s*(?:offsetof|__builtin_offsetof)\s*\(\s*((?:struct\s+|union\s+)?\w+)\s*,\s*([\w.]+)\s*\)', txt)
+        if not m:
+            raise NotSupported("offsetof designator not recognised: %r" % txt[:60])
+        t = self.tu.parse_type(m.group(1))
+        off = 0
+        key = t.name
+        for part in m.group(2).split('.'):
+            fields = self.tu.layout(key)[2]
+            if part not in fields:
+                raise NotSupported("offsetof: no member %s" % part)
+            o, ft, _ = fields[part]
+            off += o
+            key = ft.name
+        return BV(off, self.tu.ctype_of(n).bits)
 
     def ev_ImplicitCastExpr(self, n, st):
         ck = n['castKind']
@@ -1352,9 +1459,11 @@ class Exec:
             self.trusted_used.add(name)
         old = st.copy()
         c = Ctx(self, argmap, old)
-        for label, p in con.pre(c):
-            self.ob('call-requires', line_of(n), "%s:%s" % (name, label), st, p)
-            st.assume(p)
+        for label, p, extra in _norm(con.pre(c)):
+            self.ob('call-requires', line_of(n), "%s:%s" % (name, label), st, p,
+                    hyps_extra=getattr(self, 'callers_pre', ()) if extra == 'callers' else ())
+            if extra != 'callers':
+                st.assume(p)
         rt = self.tu.parse_type(fd['type']['qualType'].split('(')[0].strip())
         res = None
         if rt.kind != 'void':
@@ -1396,8 +1505,10 @@ class Exec:
             for gk in list(st.ghost):
                 st.ghost[gk] = z3.If(hv, self.fresh('g_havoc_' + name, st.ghost[gk].sort()), st.ghost[gk])
         c2 = Ctx(self, argmap, old, st, res)
-        for label, q in con.post(c2):
+        for label, q, extra in _norm(con.post(c2)):
             st.assume(q)
+        for (addr, nb) in con.allocates(c2):
+            self.alloc(st, nb, region=addr)
         return res
 
     def call_inline(self, name, st, args, n):
@@ -1408,7 +1519,8 @@ class Exec:
         sub.__dict__.update({k: v for k, v in self.__dict__.items()
                              if k in ('obs', 'global_hyps', '_fresh', '_globals_addr', '_glob_syms', 'stack_syms',
                                       'init_heaps', 'init_ghost', 'raw0', 'err0', 'base_witness', '_names',
-                                      'calls', 'trusted_used', 'st0', 'args', 'prune')})
+                                      'calls', 'trusted_used', 'st0', 'args', 'prune', 'declared_regions',
+                                      'fresh_regions', 'access_regions', 'cur_line', 'literals', 'literal_hyps')})
         sub.fname = self.fname + '>' + name
         sub._file = self.fninfo_file()
         sub.fn = fd
